@@ -29,6 +29,17 @@ Proof.
   - auto.
 Qed.
 
+Lemma NoDup_app_intro_snoc : forall (l : list nat) x,
+  NoDup l -> ~ In x l -> NoDup (l ++ [x]).
+Proof.
+  induction l as [|y l IH]; intros x Hl Hx; simpl.
+  - constructor; [intros []|constructor].
+  - inversion Hl as [|? ? Hy Hl']; subst. constructor.
+    + intro H. apply in_app_or in H. destruct H as [H|[H|[]]]; [contradiction|].
+      subst. apply Hx. left. reflexivity.
+    + apply IH; [exact Hl'|]. intro H. apply Hx. right. exact H.
+Qed.
+
 (* ------------------------------------------------------------------------- *)
 (** * reachability                                                             *)
 (* ------------------------------------------------------------------------- *)
@@ -61,7 +72,8 @@ Lemma bfs_scan_spec : forall cs q p, exists new,
   (forall c, In c cs -> In c (p ++ new)) /\ (NoDup p -> NoDup (p ++ new)).
 Proof.
   induction cs as [|c cs IH]; intros q p.
-  - exists []. rewrite !app_nil_r. repeat split; auto. intros ? [].
+  - exists []. rewrite !app_nil_r. split; [reflexivity|]. split; [apply incl_refl|].
+    split; [intros ? []|auto].
   - simpl. destruct (mem c p) eqn:E.
     + destruct (IH q p) as (new & H1 & H2 & H3 & H4). exists new. repeat split; auto.
       * intros x Hx. right. apply H2, Hx.
@@ -90,13 +102,17 @@ Lemma bfs_loop_spec : forall sc (P : nat -> Prop) (U : list nat),
 Proof.
   intros sc P U HU HP. induction fuel as [|f IH]; intros done q Hnd Hincl HPp Hlen Hclosed.
   - destruct q as [|root q'].
-    + exists (done ++ []). simpl. repeat split; auto; try apply incl_refl.
-      intros x y Hx Hy. rewrite app_nil_r in Hx. apply Hclosed; assumption.
+    + exists (done ++ []). simpl.
+      split; [reflexivity|]. split; [exact Hnd|]. split; [apply incl_refl|].
+      split; [exact HPp|]. intros x y Hx Hy. apply (Hclosed x y); [|exact Hy].
+      rewrite app_nil_r in Hx. exact Hx.
     + exfalso. pose proof (NoDup_incl_length Hnd Hincl) as HL.
       rewrite app_length in HL. simpl in HL, Hlen. lia.
   - destruct q as [|root q'].
-    + exists (done ++ []). simpl. repeat split; auto; try apply incl_refl.
-      intros x y Hx Hy. rewrite app_nil_r in Hx. apply Hclosed; assumption.
+    + exists (done ++ []). simpl.
+      split; [reflexivity|]. split; [exact Hnd|]. split; [apply incl_refl|].
+      split; [exact HPp|]. intros x y Hx Hy. apply (Hclosed x y); [|exact Hy].
+      rewrite app_nil_r in Hx. exact Hx.
     + simpl.
       destruct (bfs_scan_spec (sc root) q' (done ++ root :: q')) as (new & Hs & Hn1 & Hn2 & Hn3).
       rewrite Hs.
@@ -114,9 +130,9 @@ Proof.
         -- eapply HP; [apply HPp, Hroot|apply Hn1, Hx].
       * rewrite app_length. simpl. lia.
       * rewrite <- E. intros x y Hx Hy. apply in_app_or in Hx. destruct Hx as [Hx|[<-|[]]].
-        -- apply in_or_app. left. apply Hclosed; assumption.
+        -- apply in_or_app. left. apply (Hclosed x y); assumption.
         -- apply Hn2, Hy.
-      * exists r. repeat split; auto.
+      * exists r. split; [exact Hr1|]. split; [exact Hr2|]. split; [|split; [exact Hr4|exact Hr5]].
         intros x Hx. apply Hr3. rewrite <- E. apply in_or_app. left. exact Hx.
 Qed.
 
@@ -236,6 +252,13 @@ Qed.
 (** * the content of a row                                                     *)
 (* ------------------------------------------------------------------------- *)
 
+Lemma nth_map_lt : forall {A B} (f : A -> B) (l : list A) i d d',
+  i < List.length l -> nth i (map f l) d = f (nth i l d').
+Proof.
+  intros A B f l. induction l as [|a l IH]; intros i d d' H; simpl in *; [lia|].
+  destruct i as [|i]; [reflexivity|]. apply IH. lia.
+Qed.
+
 Theorem row_content : forall g src recs i,
   i < List.length (status_order g src) ->
   let r := rec_of recs (nth i (status_order g src) 0) in
@@ -249,9 +272,7 @@ Theorem row_content : forall g src recs i,
     join [semicolon] (map (fun kv => fst kv ++ [colon] ++ snd kv) (r_params r)) ].
 Proof.
   intros g src recs i Hi r. unfold status_rows.
-  rewrite nth_indep with (d' := (fun k => row_of (rec_of recs k)) 0)
-    by (rewrite map_length; exact Hi).
-  rewrite map_nth. reflexivity.
+  rewrite (nth_map_lt (fun k => row_of (rec_of recs k)) _ i [] 0 Hi). reflexivity.
 Qed.
 
 Lemma row_length : forall r, List.length (row_of r) = 11.
